@@ -1,12 +1,18 @@
 #!/usr/bin/env bash
 # Dev tool: re-run all quick checks on every confirmed seed under /verif/seeded and refresh meta.json.
+#   tools/recheck_seeds.sh [shard k] [of n]      (each shard uses its own scratch copy /tmp/mutR<k>)
+K="${1:-0}"; N="${2:-1}"
 cd /verif
+i=0
 for d in seeded/*/; do
   ID=$(basename $d)
   [ -f seeded/$ID/patch.diff ] || continue
-  C=$(MUT_SCRATCH=/tmp/mut2 python3 tools/seedcheck.py seeded/$ID/patch.diff 2>&1)
+  i=$((i+1))
+  [ $((i % N)) -eq "$K" ] || continue
+  C=$(MUT_SCRATCH=/tmp/mutR$K python3 tools/seedcheck.py seeded/$ID/patch.diff 2>&1)
   echo "$C" | sed "s/^/$ID: /"
   CAUGHT=$(echo "$C" | grep "^CAUGHT-BY:" | sed 's/CAUGHT-BY: //')
+  [ -n "$CAUGHT" ] || continue
   python3 - "$ID" "$CAUGHT" <<'PY'
 import json,sys
 i,c=sys.argv[1:3]
